@@ -250,6 +250,31 @@ def _v1_self(ctx, fi, ex, me="self"):
     if removing and not (set(whole_self) >= set(MAPS)):
         e0 = removing[0][1]
         ctx.check(bool(DI), "V1", "%s: nodes removed from the graph are deleted from _node_indices" % lab, fi.where(e0.node), "graph nodes are removed but no _node_indices entry is deleted: Tree.nodes / labels and later lookups see names of nodes that no longer exist", construct=fi.qualname, stmt="removal deletes _node_indices")
+        # the deleted names and the removed graph nodes are derived from the same argument, and never the root
+        def params_in(k):
+            out = set()
+
+            def rec(x):
+                if isinstance(x, tuple):
+                    if len(x) == 2 and x[0] == "v" and isinstance(x[1], str) and x[1] != "P0":
+                        out.add(x[1])
+                    for y in x:
+                        rec(y)
+
+            rec(k)
+            return out
+
+        rp = set()
+        for nm, e in removing:
+            for a in e.args:
+                rp |= params_in(vkey(a))
+        dp = set()
+        for k, e in DI:
+            dp |= params_in(k)
+        if DI:
+            ctx.check(bool(rp & dp) or (not rp and not dp), "V1", "%s: deleted names and removed graph nodes derive from the same argument" % lab, fi.where(e0.node), "the nodes removed from the graph are computed from %s but the map / data entries deleted are computed from %s" % (sorted(rp) or "self only", sorted(dp) or "self only"), construct=fi.qualname, stmt="removal and deletion range over the same nodes")
+            rootdel = [e for k, e in DI if any(show_key(g) in ("(%s == P0._ROOT_NODE_NAME)" % show_key(k), "(P0._ROOT_NODE_NAME == %s)" % show_key(k)) for g in e.guards)]
+            ctx.check(not rootdel, "V1", "%s: the virtual root keeps its entries" % lab, fi.where(e0.node), "the entries deleted are those of the virtual root (guard direction): every later lookup of the root fails or, worse, the subtree's nodes stay registered", construct=fi.qualname, stmt="root entries kept")
         for k, e in DI:
             if not once(("DI", k, tuple(e.guards))):
                 continue
